@@ -66,7 +66,10 @@ type opRec struct {
 	label   string
 	enabled func() bool
 	yield   bool
+	yieldFn func() bool // dynamic: evaluated when the scheduler looks
 }
+
+func (o *opRec) isYield() bool { return o.yield || (o.yieldFn != nil && o.yieldFn()) }
 
 // Thread is a managed goroutine.
 type Thread struct {
@@ -269,6 +272,24 @@ func Yield(label string) { point(label, nil, true) }
 // YieldUntil is like Yield, but with an enabling condition.
 func YieldUntil(label string, enabled func() bool) { point(label, enabled, true) }
 
+// PointDyn is a scheduling point whose spinning status is decided each time
+// the scheduler looks: while yieldFn() is true the thread is only scheduled
+// when no non-spinning thread is enabled (used for a blocking Read that
+// "eventually returns" with a timeout when nothing else can move).
+func PointDyn(label string, enabled func() bool, yieldFn func() bool) {
+	s := active
+	if s == nil || s.aborting {
+		return
+	}
+	t := s.running
+	t.pending = &opRec{label: label, enabled: enabled, yieldFn: yieldFn}
+	s.ctl <- struct{}{}
+	<-t.wake
+	if s.aborting {
+		panic(abortSentinel)
+	}
+}
+
 func point(label string, enabled func() bool, yield bool) {
 	s := active
 	if s == nil {
@@ -296,7 +317,7 @@ func Quiesce() {
 	me := s.running
 	point("quiesce", func() bool {
 		for _, t := range s.threads {
-			if t == me || t.done || t.pending == nil || t.pending.yield {
+			if t == me || t.done || t.pending == nil || t.pending.isYield() {
 				continue
 			}
 			if t.pending.label == "quiesce" {
@@ -369,7 +390,7 @@ func Run(cfg Config, main func()) *Result {
 			if t.pending.enabled != nil && !t.pending.enabled() {
 				continue
 			}
-			if t.pending.yield {
+			if t.pending.isYield() {
 				ys = append(ys, t)
 			} else {
 				en = append(en, t)
